@@ -170,7 +170,8 @@ func (w *writer) getFree(ctx context.Context) (int32, error) {
 	for retries > 0 {
 		retries--
 		mid := w.midPool.Get()
-		if mid == 0 {
+		// 0 is not a valid MQTT packet identifier, -1 means every identifier is in flight
+		if mid <= 0 {
 			select {
 			case <-time.After(100 * time.Millisecond):
 				continue
